@@ -119,7 +119,8 @@ type Exec struct {
 
 	aborting bool
 	over     chan struct{}
-	Failure  string // "", "deadlock", "horizon", "panic: ...", "divergence: ..."
+	Failure  string // "", "deadlock", "horizon", "panic: ..."
+	Diverged string // non-empty: the prefix could not be replayed (uncaptured nondeterminism)
 	trace    bool
 	Trace    []string
 	chans    map[uintptr]*chanState
@@ -173,7 +174,9 @@ type Result struct {
 	Points  []Point
 	Choices []int
 	Failure string
-	Steps   int
+	// Diverged is non-empty when the prefix could not be followed: nothing may be concluded from this execution
+	Diverged string
+	Steps    int
 	Trace   []string
 	// Unfinished lists the non-daemon threads that had not finished at the end (deadlock/horizon), with their pending op
 	Unfinished []string
@@ -241,6 +244,7 @@ func Run(opts Options, main func()) (res Result) {
 		res.Choices[i] = int(p.Chosen)
 	}
 	res.Failure = e.Failure
+	res.Diverged = e.Diverged
 	res.Steps = e.steps
 	res.Trace = e.Trace
 	res.VirtualNS = e.now
@@ -462,8 +466,14 @@ func (e *Exec) choose(n int, kind uint8, fromEnabled, timerAlt bool, desc func(i
 	if i < len(e.prefix) {
 		idx = e.prefix[i]
 		if idx < 0 || idx >= n {
-			e.Failure = fmt.Sprintf("divergence: replayed choice %d out of range (n=%d) at point %d", idx, n, i)
-			panic(HarnessError{e.Failure + fmt.Sprintf(" prefix=%v", e.prefix)})
+			// The same prefix led to a different set of alternatives than in the execution that produced it:
+			// some nondeterminism is not behind a seam (Go map iteration in uninstrumented code, ...).  The
+			// execution is marked and finished with default choices; the explorer counts it, judges nothing on
+			// it and does not expand it (a panic here could be swallowed by the code's own recover handlers).
+			if e.Diverged == "" {
+				e.Diverged = fmt.Sprintf("replayed choice %d out of range (n=%d) at point %d of prefix %v", idx, n, i, e.prefix)
+			}
+			idx = 0
 		}
 	}
 	p := Point{N: int16(n), Chosen: int16(idx), Kind: kind, FromEnabled: fromEnabled, TimerAlt: timerAlt, UsedP: int16(e.usedP), UsedF: int16(e.usedF), UsedT: int16(e.usedT)}
